@@ -178,6 +178,35 @@ def cases(tier, seed):
         }
 
 
+    # --- bulk part: more texts in ONE model-facing call than any plausible per-request limit of a provider (hundreds),
+    #     as a list request, as a big index build, or as one large batch of concurrent searches
+    nbulk = 60 if tier == "quick" else 600
+    rngb = random.Random("bulk-%s-%s" % (tier, seed))
+    for _ in range(nbulk):
+        i += 1
+        shape = rngb.choice(["list", "items", "bigbatch"])
+        big = rngb.choice([101, 130, 257])
+        uniq = rngb.random() < 0.7
+        if shape == "list":
+            kinds = ["list"] + ["batch"] * rngb.randint(0, 2)
+            texts = [["b%d-%s" % (j, "x" if uniq or j % 7 else "dup") for j in range(big)]] + ["tail%d" % j for j in range(len(kinds) - 1)]
+            items, bs = [], rngb.randint(1, 5)
+        elif shape == "items":
+            kinds = ["search"] * rngb.randint(1, 3)
+            items = ["doc%d-%s" % (j, "k" if uniq or j % 9 else "same") for j in range(big)]
+            texts = [rngb.choice(items) for _ in kinds]
+            bs = rngb.randint(1, 5)
+        else:
+            kinds = ["batch"] * big
+            texts = ["s%d-%s" % (j, "x" if uniq or j % 5 else "dup") for j in range(big)]
+            items, bs = [], big + rngb.randint(0, 8)
+        yield {
+            "id": i, "mode": "rnd", "cache": rngb.choice(CACHES), "bs": bs, "hold": rngb.choice([0.01, 0.01, 5.0]), "batching": True,
+            "kinds": kinds, "texts": texts, "items": items, "script": [], "seed": rngb.randrange(1 << 30), "instant": 0.0,
+            "w": rngb.choice([[1, 4, 1, 1], [2, 2, 1, 3], [1, 1, 1, 1]]), "uniq": uniq, "cp": 0, "bulk": shape,
+        }
+
+
 # ----------------------------------------------------------------------------- worker side
 _W = {}
 _CUR = [None]
@@ -302,7 +331,7 @@ def _install_steps(modules, steps):
 
     def on_start(code, offset):
         _ST["count"] += 1
-        if _ST["armed"] and _ST["count"] > STEP_BUDGET:
+        if _ST["armed"] and _ST["count"] > _ST.get("budget", STEP_BUDGET):
             _ST["blown"] = True
             raise steps.StepBudgetExceeded("logical step budget %d exceeded" % STEP_BUDGET)
 
@@ -316,8 +345,8 @@ def _install_steps(modules, steps):
         raise RuntimeError("step counter instrumented only %d code objects" % n)
 
 
-def _steps_start():
-    _ST.update(count=0, armed=True, blown=False)
+def _steps_start(scale=1):
+    _ST.update(count=0, armed=True, blown=False, budget=STEP_BUDGET * max(1, scale))
 
 
 def _steps_stop():
@@ -412,7 +441,7 @@ def run_case(case):
     compound_steps = 0
     build_calls = 0
     idx = None
-    _steps_start()
+    _steps_start(scale=40 if case.get("bulk") else 1)
     try:
         idx = W["basic"].BasicEmbeddingsIndex(
             embedding_model="m", embedding_engine="verif_gated_c19", cache_config=_cache_cfg(case["cache"], tmpdir),
